@@ -173,24 +173,43 @@ def secLoad (c : Cls) (enc : Enc) (tr : List Trans) (ls : LoadSt) (hdrOff : Int)
       (ls, { b with addrSet := true })
     else (ls, { b with addrSet := true })
 
+/-- `segment_impl::is_file_range_valid()` : the file range of the segment lies inside the stream
+    (`PT_NULL` / empty segments have nothing to read).  Asked by `load_data()` before it allocates and
+    by the lazy path of `load()`: both modes accept and refuse the same program headers. -/
+def segRangeOk (c : Cls) (tr : List Trans) (g : Seg) : Bool :=
+  let skip := match c with
+    | .c32 => seg32_range_skip g.stype g.filesz
+    | .c64 => seg64_range_skip g.stype g.filesz
+  if skip then true else
+  let off : BitVec 64 := BitVec.ofInt 64 (trApply tr g.offset.toInt)
+  let size := g.filesz
+  let offGt := match c with
+    | .c32 => seg32_range_off_gt off g.streamSize
+    | .c64 => seg64_range_off_gt off g.streamSize
+  if offGt then false else
+  let sizeGt := match c with
+    | .c32 => seg32_range_size_gt size g.streamSize off
+    | .c64 => seg64_range_size_gt size g.streamSize off
+  if sizeGt then false else
+  let st' := match c with | .c32 => seg32_range_sizet size | .c64 => seg64_range_sizet size
+  if st' then false else true
+
+/-- `segment_impl<T>::load_data` : `if ( !is_file_range_valid() )` -/
+def segRangeBad (c : Cls) (rangeOk : Bool) : Bool :=
+  match c with | .c32 => seg32_load_data_range_bad rangeOk | .c64 => seg64_load_data_range_bad rangeOk
+/-- `segment_impl<T>::load` : `return is_loaded || is_file_range_valid();` (the lazy path) -/
+def segLazyRet (c : Cls) (isLoaded rangeOk : Bool) : Bool :=
+  match c with | .c32 => seg32_load_lazy_ret isLoaded rangeOk | .c64 => seg64_load_lazy_ret isLoaded rangeOk
+
 /-- `segment_impl::load_data()` -/
 def segLoadData (c : Cls) (tr : List Trans) (ls : LoadSt) (g : Seg) : LoadSt × Seg × Bool :=
   let skip := match c with
     | .c32 => seg32_load_data_skip g.stype g.filesz
     | .c64 => seg64_load_data_skip g.stype g.filesz
   if skip then (ls, g, true) else
+  if segRangeBad c (segRangeOk c tr g) then (ls, { g with data := none }, false) else
   let off : BitVec 64 := BitVec.ofInt 64 (trApply tr g.offset.toInt)
   let size := g.filesz
-  let offGt := match c with
-    | .c32 => seg32_load_data_off_gt off g.streamSize
-    | .c64 => seg64_load_data_off_gt off g.streamSize
-  if offGt then (ls, { g with data := none }, false) else
-  let sizeGt := match c with
-    | .c32 => seg32_load_data_size_gt size g.streamSize off
-    | .c64 => seg64_load_data_size_gt size g.streamSize off
-  if sizeGt then (ls, { g with data := none }, false) else
-  let st' := match c with | .c32 => seg32_load_data_sizet size | .c64 => seg64_load_data_sizet size
-  if st' then (ls, { g with data := none }, false) else
   let n := (match c with | .c32 => seg32_load_data_alloc size | .c64 => seg64_load_data_alloc size).toNat
   let ls := { ls with allocs := ls.allocs ++ [n] }
   -- `pstream->read(...)` converted to bool: the stream must not be failed after the read
@@ -209,7 +228,8 @@ def segGetData (c : Cls) (tr : List Trans) (ls : LoadSt) (g : Seg) : LoadSt × S
     (ls, g)
   else (ls, g)
 
-/-- `segment_impl::load(stream, header_offset, is_lazy)` : returns the success flag -/
+/-- `segment_impl::load(stream, header_offset, is_lazy)` : returns the success flag (a lazy load reads no
+    data but answers what the range tests of an eager load answer) -/
 def segLoad (c : Cls) (enc : Enc) (tr : List Trans) (ls : LoadSt) (hdrOff : Int) (isLazy : Bool) :
     LoadSt × Seg × Bool :=
   let (st, ss) := streamSizeOf tr ls.st
@@ -222,7 +242,7 @@ def segLoad (c : Cls) (enc : Enc) (tr : List Trans) (ls : LoadSt) (hdrOff : Int)
   if segEager c isLazy g.isLoaded then
     let (ls, g, ok) := segLoadData c tr ls g
     (ls, g, ok)
-  else (ls, g, true)
+  else (ls, g, segLazyRet c g.isLoaded (segRangeOk c tr g))
 
 /-! ### bounded string lookup used for section names (`string_section_accessor::get_string`) -/
 
